@@ -28,7 +28,9 @@ MANIFEST = {
             '(vm_compute) against real MessageExchanger objects call by call on every run.',
     'note': 'Trusted: Coq kernel+vm_compute; the Gallina model of send/data_received/receive and of the key-subset selection '
             '(Frame.matching = itertools.combinations filter) is tied to asyncoro.py/runtime.py by exact per-call comparison '
-            '(state, leftover bytes, dict order, resolved futures, stored keys), not verified from the Python source. '
+            '(state, leftover bytes, dict order, resolved futures, stored keys), not verified from the Python source; handshakes '
+            'are also run with the threshold in force (rt.threshold assigned after construction) different from the start-up '
+            'option, the model always using the threshold in force. '
             'Theorems assume pairwise distinct labels (C09) and one receive per label; with a repeated label the code raises '
             'AttributeError inside data_received (modelled as DupError, compared on a small error stream). The end-to-end theorem '
             'starts after the handshake (handshake_any_chunking covers handshake followed by frames at parser level). '
@@ -452,22 +454,35 @@ def run(ctx):
             inputs = [('C', enc_ref(pc, p1)), ('R', pc), ('R', pc), ('C', enc_ref(pc, p2))]
         frame_case([(pc, p1), (pc, p2)], inputs, 'repeated-label(error stream)', nontrivial=False, allow_dup=True)
 
-    # ---- E. handshake: all (m, t), all ordered (client, server) pairs, with / without PRSS keys
+    # ---- E. handshake: all (m, t), all ordered (client, server) pairs, with / without PRSS keys;
+    #         plus runtimes whose threshold was assigned after construction (option value t0 != t)
     hs_n = 0
     maxm = ctx.n(6, 7)
-    for m in range(2, maxm + 1):
+    # (t, t0): threshold in force and the start-up option value.  t0 != t: the program assigned
+    # mpc.threshold before mpc.start() -- both ends must use the threshold in force for the key packet.
+    def tt(m):
+        out = []
         for t in range(0, m):
+            out.append((t, t))
+            if m >= 3:
+                others = [x for x in range(0, m) if x != t]
+                if m > 4 and ctx.tier != 'thorough':
+                    others = rng.sample(others, 2 if m == 5 else 1)
+                out += [(t, t0) for t0 in others]
+        return out
+    for m in range(2, maxm + 1):
+        for t, t0 in tt(m):
             for c in range(m):
                 for sv in range(m):
                     if c == sv:
                         continue
-                    for np_ in (False, True):
+                    for np_ in ((False, True) if t0 == t else (False,)):
                         salt = rng.randrange(1 << 30)
 
                         def key_fn(S, owner=None, salt=salt):
                             import hashlib
                             return hashlib.sha256(repr((S, salt)).encode()).digest()[:16]
-                        rt_c = fn.make_runtime(m, t, c, np_, key_fn)
+                        rt_c = fn.make_runtime(m, t, c, np_, key_fn, option_t=t0)
                         exc, trc = fn.client_exchanger(rt_c, sv)
                         hello = trc.take()
                         msgs = rand_msgs(rng.randrange(0, 4), [0, 1, 2, 9])
@@ -476,9 +491,9 @@ def run(ctx):
                         s = hello + trc.take()
                         nkeys = 0 if np_ else sum(1 for S in itertools.combinations(range(m), m - t) if S[0] == c and sv in S)
                         if len(hello) != 2 + 16 * nkeys:
-                            violate('handshake-hello-length', {'m': m, 't': t, 'client': c, 'server': sv, 'no_prss': np_,
+                            violate('handshake-hello-length', {'m': m, 't': t, 'option_t': t0, 'client': c, 'server': sv, 'no_prss': np_,
                                                                      'len': len(hello), 'want': 2 + 16 * nkeys})
-                        styles = ['bytes', 'random', 'whole'] if (m <= 4 or ctx.tier == 'thorough') else [rng.choice(['bytes', 'random', 'random', 'whole'])]
+                        styles = ['bytes', 'random', 'whole'] if ((m <= 4 and t0 == t) or ctx.tier == 'thorough') else [rng.choice(['bytes', 'random', 'random', 'whole'])]
                         for style in styles:
                             if style == 'bytes':
                                 cuts = list(range(1, len(s)))
@@ -490,7 +505,7 @@ def run(ctx):
                                     cuts = sorted(cuts + [min(len(s), max(0, len(hello) + d)) for d in (-1, 1)])
                             chunks = fn.split_at(s, cuts)
                             # fresh server state for every run
-                            rt_s = fn.make_runtime(m, t, sv, np_, key_fn)
+                            rt_s = fn.make_runtime(m, t, sv, np_, key_fn, option_t=t0)
                             own = dict(getattr(rt_s, '_prss_keys', {}))
                             exs, trs = fn.server_exchanger(rt_s)
                             im = Impl(exs, rt_s)
@@ -509,7 +524,7 @@ def run(ctx):
                                         partial_seen = True
                                         if exs.peer_pid is not None or bytes(exs.bytes) != s[:fedn] or \
                                                 set(getattr(rt_s, '_prss_keys', {})) != set(own):
-                                            violate('handshake-consumed-early', {'m': m, 't': t, 'client': c, 'server': sv,
+                                            violate('handshake-consumed-early', {'m': m, 't': t, 'option_t': t0, 'client': c, 'server': sv,
                                                                                        'no_prss': np_, 'cuts': cuts, 'fed': fedn})
                                 else:
                                     im.receive(v)
@@ -538,14 +553,14 @@ def run(ctx):
                                     if g != p:
                                         bad = 'frame after handshake: label %d got %r want %r' % (pc, g, p)
                             if bad:
-                                violate('handshake-wrong m=%d t=%d no_prss=%s' % (m, t, np_),
-                                              {'what': bad, 'm': m, 't': t, 'client': c, 'server': sv, 'no_prss': np_,
+                                violate('handshake-wrong%s m=%d t=%d no_prss=%s' % ('' if t0 == t else '(threshold assigned)', m, t, np_),
+                                              {'what': bad, 'm': m, 't': t, 'option_t': t0, 'client': c, 'server': sv, 'no_prss': np_,
                                                'stream': s.hex(), 'cuts': cuts, 'inputs': [[k, v.hex() if k == 'C' else v] for k, v in inputs]})
-                            key = {'m': m, 't': t, 'client': c, 'server': sv, 'no_prss': np_, 'stream': s.hex()[:80],
+                            key = {'m': m, 't': t, 'option_t': t0, 'client': c, 'server': sv, 'no_prss': np_, 'stream': s.hex()[:80],
                                    'cuts': cuts, 'rcv': [[i, v] for i, (k, v) in enumerate(inputs) if k == 'R']}
-                            ctx.case(key, nontrivial=True, kind='handshake %s%s' % (style, ' no_prss' if np_ else ''))
+                            ctx.case(key, nontrivial=True, kind='handshake %s%s%s' % (style, ' no_prss' if np_ else '', '' if t0 == t else ' threshold!=option'))
                             hs_n += 1
-                            if m <= 4 or ctx.tier == 'thorough' or rng.random() < 0.5:
+                            if (m <= 4 and t0 == t) or ctx.tier == 'thorough' or rng.random() < 0.5:
                                 exprs.append('sim_c_mt %s %s %s %s (None, []) [] %s' % (blit(np_), natlit(m), natlit(t), natlit(sv), coq_inputs(inputs)))
                                 meta.append(('handshake', key, im.obs, False))
     ctx.log('E done: %d handshakes; evaluating %d model traces + %d codec expressions in Coq' % (hs_n, len(exprs), len(cexprs)))
